@@ -138,6 +138,42 @@ def awaits_in_locks():
     return res
 
 
+def agent_tables():
+    """(initialised per agent on join, dropped on removal, read as a whole (all()/len()/iteration))"""
+    from AIDojoCoordinator.coordinator import GameCoordinator
+
+    def attr_of(node):      # self.X  -> "X"
+        if isinstance(node, ast.Attribute) and isinstance(node.value, ast.Name) and node.value.id == "self":
+            return node.attr
+        return None
+    init = set()
+    for f in (GameCoordinator._initialize_new_player, GameCoordinator._process_join_game_action):
+        for node in ast.walk(_src(f)):
+            if isinstance(node, ast.Assign):
+                for t in node.targets:
+                    if isinstance(t, ast.Subscript) and attr_of(t.value) and isinstance(t.slice, ast.Name) and t.slice.id == "agent_addr":
+                        init.add(attr_of(t.value))
+    dropped = set()
+    for node in ast.walk(_src(GameCoordinator._remove_agent_from_game)):
+        if isinstance(node, ast.Call) and isinstance(node.func, ast.Attribute) and node.func.attr in ("pop", "discard") and attr_of(node.func.value):
+            if node.args and isinstance(node.args[0], ast.Name) and node.args[0].id == "agent_addr":
+                dropped.add(attr_of(node.func.value))
+    aggregated = set()
+    tree = ast.parse(textwrap.dedent(inspect.getsource(GameCoordinator)))
+    for node in ast.walk(tree):
+        if isinstance(node, ast.Call) and isinstance(node.func, ast.Attribute) and node.func.attr in ("values", "items", "keys") and attr_of(node.func.value):
+            aggregated.add(attr_of(node.func.value))
+        if isinstance(node, ast.Call) and isinstance(node.func, ast.Name) and node.func.id == "len" and node.args and attr_of(node.args[0]):
+            aggregated.add(attr_of(node.args[0]))
+        if isinstance(node, (ast.For, ast.comprehension)) and attr_of(node.iter):
+            aggregated.add(attr_of(node.iter))
+    return sorted(init), sorted(dropped), sorted(aggregated)
+
+
+def lean_str_list(xs):
+    return "[" + ", ".join('"' + x + '"' for x in xs) + "]"
+
+
 HANDLERS = {"_process_join_game_action": "join", "_process_quit_game_action": "quit",
             "_process_reset_game_action": "reset", "_process_game_action": "game"}
 PARAMS = {"source_host": "sourceHost", "target_host": "targetHost", "blocked_host": "blockedHost",
@@ -183,6 +219,11 @@ def generate():
     L.append(f"def paramsUnreadable : Nat := {sum(1 for v in pr.values() if v is None)}")
     L.append("/-- GameCoordinator.REQUIRED_PARAMETERS (validated before dispatch) -/")
     L.append("def requiredParams : List (ATy × List Param) := [" + ", ".join(f"(.{ATY[k]}, {lparams(v)})" for k, v in sorted((rq or {}).items()) if k in ATY) + "]")
+    at_init, at_drop, at_aggr = agent_tables()
+    L.append("/-- per-agent tables: filled on join / popped or discarded on removal / read as a whole (all(), len(), iteration) -/")
+    L.append("def agentTablesInit : List String := " + lean_str_list(at_init))
+    L.append("def agentTablesDropped : List String := " + lean_str_list(at_drop))
+    L.append("def agentTablesAggregated : List String := " + lean_str_list(at_aggr))
     L.append("/-- awaits lexically inside an `async with self.<lock>` block that are NOT `<that lock>.wait()` -/")
     bad = [(a, b, c) for a, b, c in aw if c != f"self.{b}.wait()"]
     L.append(f"def foreignAwaitsInLocks : Nat := {len(bad)}")
@@ -195,7 +236,8 @@ def generate():
         with open(path, "w") as f:
             f.write(text)
     return {"defender": dt, "action_types": ats, "dispatch": disp, "dispatch_default": default, "params_read": pr,
-            "required": rq, "awaits_in_locks": aw, "changed": old != text}
+            "required": rq, "awaits_in_locks": aw, "agent_tables": {"init": at_init, "dropped": at_drop, "aggregated": at_aggr},
+            "changed": old != text}
 
 
 if __name__ == "__main__":
